@@ -283,10 +283,6 @@ def main():
         cases = list(mod.generate(rng, a.tier, seed))
         rechecked = core.recheck_sample(cases, random.Random(f"{pid}-{seed}-recheck"))
         rechecked += core.alias_recheck()
-        opt_case = core.optimised_recheck()
-        optimised = opt_case.desc["calls"] if opt_case else 0
-        if opt_case:
-            cases.append(opt_case)
         replies = core.run_driver([c.lines for c in cases]) if not build_failed or os.path.exists(core.DRIVER) else [[] for _ in cases]
     except core.InfraError as e:
         print("INFRA:", e)
@@ -333,6 +329,16 @@ def main():
         return 1
     if hasattr(mod, "second_pass"):
         mod.second_pass(cases, replies)
+    # repetition in other interpreter modes (core.CHILD_CONFIGS) of the calls kept during generation and the second pass
+    try:
+        opt_case = core.optimised_recheck()
+    except core.InfraError as e:
+        print("INFRA:", e)
+        return 2
+    optimised = opt_case.desc["calls"] if opt_case else 0
+    if opt_case:
+        cases.append(opt_case)
+        replies.append([])
     dis, fails = evaluate(cases, replies)
 
     # falsifier search after a break without a failing input
@@ -413,7 +419,8 @@ def main():
             "traces_validated_against_impl": compared,
             "predicate_evaluations": npreds,
             "calls_repeated_at_end_of_run": rechecked,
-            "calls_repeated_under_python_O": optimised,
+            "calls_repeated_in_other_interpreter_modes": optimised,
+            "interpreter_modes": [x[0] + ": " + x[3] for x in core.CHILD_CONFIGS],
             "disagreements_checked": len(dis),
             "falsifier_search_cases": searched,
             "distribution": {"kinds": dict(kinds), "implementation_outcomes": dict(outcomes)},
